@@ -619,5 +619,19 @@ _ADDENDA3 = {
     "C18": "Rounds 14-16: in lazily verified histories a new copy is not looked at before the next comparison (a copy that duplicates on first use would otherwise be woken up by the harness).",
     "C20": "Rounds 14-16: one directory per species holding the same three file names; start and end of a species never share residue and atom names (such a pair is ambiguous for discovery and outside the domain).",
 }
+_ADDENDA4 = {
+    "C04": "Round 17: residue names that begin with a digit and foreign species relabelled so that residue number and name, written one after the other, read the same.",
+    "C05": "Round 17: titles with braces and per-cent signs.",
+    "C07": "Round 17: bond tables with a few tabulated lengths shared by many bonds (two pending neighbours of exactly equal length).",
+    "C09": "Round 17: the restraint list the search builds its measure from is compared with the list the search was given (a pair listed twice weighs twice).",
+    "C11": "Round 17: symmetric residues in which a later atom repeats the first atom's name.",
+    "C12": "Round 17: titles made of blanks only.",
+    "C14": "Round 17: number-like residue and atom names in abandoned files with no declared count.",
+    "C16": "Round 17: molecule names of sixteen and more characters.",
+    "C19": "Round 17: rectangular boxes whose off-diagonal zeros are negative zeros.",
+    "C20": "Round 17: end topologies whose molecule name differs from the start topology's (the comparison's library workflow attaches end molecules by the documented attribute route).",
+}
+for _pid, _txt in _ADDENDA4.items():
+    PROPERTIES[_pid]["level_text"] = PROPERTIES[_pid]["level_text"] + "  " + _txt
 for _pid, _txt in _ADDENDA3.items():
     PROPERTIES[_pid]["level_text"] = PROPERTIES[_pid]["level_text"] + "  " + _txt
